@@ -32,6 +32,7 @@ type FuncSpec struct {
 	Pkg      string
 	Name     string
 	Requires []Clause
+	Decreases *Clause // termination measure for (self-)recursive functions
 	CallsEach string // higher-order clause: slice(args...) — calls every element in order
 	CallPre  map[string][]Clause // extra obligations at the call sites of a callee inside this function
 	Physical []Clause // free preconditions: assumed on both sides (event counters below 2^49, stored objects exist)
@@ -82,6 +83,7 @@ type Specs struct {
 	Ghosts   map[string]*GhostField
 	Nullable map[string]bool // "pkgpath.Type.field"
 	UFs      map[string]*UFDecl
+	Axioms   map[string][]Clause // closed facts about an uninterpreted function, assumed where it is used
 	GhostVars map[string]string // global ghost variables: name -> type
 	Folds     map[string]*FoldDecl
 	Files    []string
@@ -221,6 +223,22 @@ func (s *Specs) loadSpecFile(path, pkgPath string, assumed bool) error {
 			}
 			s.UFs[u.Name] = u
 			cur = nil
+		case "axiom":
+			// axiom <uf name>: <closed expr> -- assumed wherever that uninterpreted function is used
+			i := strings.Index(rest, ": ")
+			if i < 0 {
+				return fmt.Errorf("%s: axiom <uf>: <expr>", where)
+			}
+			c, err := mkClause(rest[i+2:], where)
+			if err != nil {
+				return err
+			}
+			nm := strings.TrimSpace(rest[:i])
+			if s.Axioms == nil {
+				s.Axioms = map[string][]Clause{}
+			}
+			s.Axioms[nm] = append(s.Axioms[nm], c)
+			cur = nil
 		case "nullable":
 			for _, n := range strings.Split(rest, ",") {
 				n = strings.TrimSpace(n)
@@ -297,6 +315,12 @@ func (fs *FuncSpec) addDirective(word, rest, where string) error {
 			return err
 		}
 		fs.Requires = append(fs.Requires, c)
+	case "decreases":
+		c, err := mkClause(rest, where)
+		if err != nil {
+			return err
+		}
+		fs.Decreases = &c
 	case "callseach":
 		fs.CallsEach = strings.TrimSpace(rest)
 	case "callpre":
